@@ -175,10 +175,9 @@ func i1Build(r *rng, dns bool) *i1Scenario {
 	}
 	sc.storage = s
 	sc.note = strings.Join(note, " ‖ ")
-	scan := s.NewRuleStorageScanner()
-	for scan.Scan() {
-		f, _ := scan.Rule()
-		switch f := f.(type) {
+	// the rules the requests are aimed at are read list by list, not through the storage scanner under test
+	for _, sr := range mScanLists(ls) {
+		switch f := sr.rule.(type) {
 		case *rules.NetworkRule:
 			sc.nets = append(sc.nets, f)
 			sc.texts = append(sc.texts, f.RuleText)
@@ -400,6 +399,10 @@ func i1CosLine(r *rng) string {
 			"#@#.x", "example.org#@#", "a..b##.x", "example.org.##.dot", ".example.org##.lead", "~##.x", "EXAMPLE.org##.upper", "example.org,##.trail"})
 	default:
 		t = eMutate(r, c15GenRule(r))
+	}
+	if r.chance(1, 25) {
+		// a hiding rule / exception with a few hundred domains: longer than the scanner's 4096-byte read buffer
+		t = c15LongRule(r)
 	}
 	t = strings.NewReplacer("\n", "", "\r", "").Replace(t)
 	if r.chance(1, 8) {
